@@ -21,9 +21,10 @@ theorem octets_pack (g6 g7 : Nat) (h6 : g6 < 65536) (h7 : g7 < 65536) :
   clear e1 e2 e3 e4
   constructor <;> omega
 
-/-- IPv4 (mapped / compatible) addresses: the parser reads the dotted quad as IPv4-mapped -/
-theorem ntop_pton_v4 (fx : Bool) (a : Addr) (h4 : isIPv4 a = true) :
-    ptonWith fx (ntopFull a) false false = pure ⟨(ntopFull a).length, canon a, none, false⟩ := by
+/-- IPv4 (mapped / compatible) addresses: the parser reads the dotted quad as IPv4-mapped;
+    asked for a netmask (`wb`), it reports the plain address as its own /128 -/
+theorem ntop_pton_v4_wb (fx : Bool) (a : Addr) (wb : Bool) (h4 : isIPv4 a = true) :
+    ptonWith fx (ntopFull a) wb false = pure ⟨(ntopFull a).length, canon a, setBits wb none 128, false⟩ := by
   have htext : ntopFull a = dotted a[6].toNat a[7].toNat := by
     unfold ntopFull ntopFullWith; simp [h4]
   have h6 := a[6].isLt
@@ -36,28 +37,44 @@ theorem ntop_pton_v4 (fx : Bool) (a : Addr) (h4 : isIPv4 a = true) :
   have o2 : (g6 * 65536 + g7) / 65536 % 256 < 256 := by omega
   have o3 : (g6 * 65536 + g7) / 256 % 256 < 256 := by omega
   have o4 : (g6 * 65536 + g7) % 256 < 256 := by omega
-  rw [pton_quad fx _ _ _ _ o1 o2 o3 o4 false]
+  rw [pton_quad fx _ _ _ _ o1 o2 o3 o4 wb]
   obtain ⟨hhi, hlo⟩ := octets_pack g6 g7 h6 h7
-  simp only [mapped4, hhi, hlo, setBits, Bool.false_eq_true, ↓reduceIte]
+  simp only [mapped4, hhi, hlo]
 
-/-- all other addresses: the parser reads the text back as the same address -/
-theorem ntop_pton_v6 (fx : Bool) (a : Addr) (h4 : isIPv4 a = false) :
-    ptonWith fx (ntopFull a) false false = pure ⟨(ntopFull a).length, a, none, false⟩ := by
+/-- all other addresses: the parser reads the text back as the same address (and as a /128) -/
+theorem ntop_pton_v6_wb (fx : Bool) (a : Addr) (wb : Bool) (h4 : isIPv4 a = false) :
+    ptonWith fx (ntopFull a) wb false = pure ⟨(ntopFull a).length, a, setBits wb none 128, false⟩ := by
   rcases ntop_shape a h4 with hfull | ⟨l, r, hl, hlen, hr6, hsplit, htext⟩
-  · rw [hfull]; exact pton_full fx a
-  · rw [htext]; exact pton_layout fx a l r hl hlen hr6 hsplit
+  · rw [hfull]; exact pton_full fx a wb
+  · rw [htext]; exact pton_layout fx a wb l r hl hlen hr6 hsplit
+
+/-- **C12 / C13, own parser**: for every address, `irc_pton` accepts the whole text printed by
+    `irc_ntop` and yields the same address, IPv4-compatible addresses canonicalising to
+    IPv4-mapped; when a netmask is asked for (`wb`, as the class rules' `address` criterion
+    does) the plain address is reported with prefix length 128; no fault on the way. -/
+theorem ntop_pton_wb (fx : Bool) (a : Addr) (wb : Bool) :
+    ptonWith fx (ntop a 40).1 wb false = .ok ⟨(ntop a 40).1.length, canon a, setBits wb none 128, false⟩ := by
+  rw [(ntop_len a).2.2]
+  by_cases h4 : isIPv4 a = true
+  · exact ntop_pton_v4_wb fx a wb h4
+  · have h4' : isIPv4 a = false := by simpa using h4
+    rw [canon_of_not_ipv4 a h4']
+    exact ntop_pton_v6_wb fx a wb h4'
+
+theorem ntop_pton_v4 (fx : Bool) (a : Addr) (h4 : isIPv4 a = true) :
+    ptonWith fx (ntopFull a) false false = pure ⟨(ntopFull a).length, canon a, none, false⟩ :=
+  ntop_pton_v4_wb fx a false h4
+
+theorem ntop_pton_v6 (fx : Bool) (a : Addr) (h4 : isIPv4 a = false) :
+    ptonWith fx (ntopFull a) false false = pure ⟨(ntopFull a).length, a, none, false⟩ :=
+  ntop_pton_v6_wb fx a false h4
 
 /-- **C12, own parser**: for every address, `irc_pton` (no netmask, no trailing text) accepts
     the whole text printed by `irc_ntop` and yields the same address, IPv4-compatible
     addresses canonicalising to IPv4-mapped; no fault on the way. -/
 theorem ntop_pton (fx : Bool) (a : Addr) :
-    ptonWith fx (ntop a 40).1 false false = .ok ⟨(ntop a 40).1.length, canon a, none, false⟩ := by
-  rw [(ntop_len a).2.2]
-  by_cases h4 : isIPv4 a = true
-  · exact ntop_pton_v4 fx a h4
-  · have h4' : isIPv4 a = false := by simpa using h4
-    rw [canon_of_not_ipv4 a h4']
-    exact ntop_pton_v6 fx a h4'
+    ptonWith fx (ntop a 40).1 false false = .ok ⟨(ntop a 40).1.length, canon a, none, false⟩ :=
+  ntop_pton_wb fx a false
 
 /-- printing the canonical form gives the same text -/
 theorem ntop_canon (a : Addr) : ntopFull (canon a) = ntopFull a := by
